@@ -361,9 +361,13 @@ func (ft *fnTrans) applyContract(x ssa.Value, fc *FuncContract, callee *ssa.Func
 			}
 		}
 	}
-	post := &Env{vc: vc, pkg: pkg, vars: pre.vars, heap: *h, old: pre, top0: topPre}
+	oldEnv := *pre
+	oldEnv.old = &oldEnv
+	post := &Env{vc: vc, pkg: pkg, vars: pre.vars, heap: *h, old: &oldEnv, top0: topPre}
+	defer func() { oldEnv.results = post.results }()
 	for i, r := range results {
 		post.results = append(post.results, TV{r, sig.Results().At(i).Type()})
+		oldEnv.results = post.results
 		if n := sig.Results().At(i).Name(); n != "" && n != "_" {
 			post.vars = copyVars(post.vars)
 			post.vars[n] = post.results[i]
